@@ -31,6 +31,7 @@ func runC13(c *Ctx, r *Run) {
 	r.Rule("OT-N", "every pointer/interface field of a message is used only under a dominating nil guard (locally or at the entry of the internal/ot callee)")
 	r.Rule("FS-5", "extended OT: chi is drawn after all columns of U entered the context hash, on both sides")
 	r.Rule("SIB-1", "multiplication: both sides sample chi from the same domain in the same order and use the same gadget construction")
+	r.Rule("CMP-1", "equality tests over fixed-size arrays compare every element (loop bound = array length)")
 	r.Rule("BIT-1", "one bit-addressing convention (byte i>>3, bit i&7) at every bit access of internal/ot")
 
 	checkGuardInventory(c, r, "OB-T", "round_guards.json", isOTFunc)
@@ -54,6 +55,9 @@ func runC13(c *Ctx, r *Run) {
 		checkBitAccess(c, r, fn)
 	}
 
+	checkComparators(c, r, fns)
+
+	r.Require("CMP-1", 1)
 	r.Require("OB-T", 25)
 	r.Require("OT-L", 5)
 	r.Require("OT-N", 8)
@@ -956,4 +960,71 @@ func normPhi(p string) string {
 		i++
 	}
 	return b.String()
+}
+
+// checkComparators: CMP-1. A bool-returning function that walks two fixed-size arrays of the same type with a
+// constant loop bound must walk all of them.
+func checkComparators(c *Ctx, r *Run, fns []*ssa.Function) {
+	for _, fn := range fns {
+		sig := fn.Signature
+		if sig.Results().Len() != 1 || !returnsBoolSig(sig) || len(fn.Params) != 2 {
+			continue
+		}
+		arr := func(t types.Type) *types.Array {
+			if pt, ok := t.Underlying().(*types.Pointer); ok {
+				t = pt.Elem()
+			}
+			a, _ := t.Underlying().(*types.Array)
+			return a
+		}
+		a0, a1 := arr(fn.Params[0].Type()), arr(fn.Params[1].Type())
+		if a0 == nil || a1 == nil || a0.Len() != a1.Len() {
+			continue
+		}
+		name := c.FuncName(fn)
+		r.Analysed(name)
+		// loops indexing both parameters with the same induction variable
+		for _, b := range fn.Blocks {
+			if len(b.Instrs) == 0 {
+				continue
+			}
+			iff, ok := b.Instrs[len(b.Instrs)-1].(*ssa.If)
+			if !ok {
+				continue
+			}
+			bo, ok := iff.Cond.(*ssa.BinOp)
+			if !ok || bo.Op != token.LSS {
+				continue
+			}
+			k, isConst := constInt(bo.Y)
+			if !isConst {
+				continue
+			}
+			used := map[ssa.Value]bool{}
+			allInstrs(fn, func(in ssa.Instruction) {
+				if ia, ok := in.(*ssa.IndexAddr); ok && ia.Index == bo.X {
+					used[ia.X] = true
+				}
+			})
+			if !used[ssa.Value(fn.Params[0])] || !used[ssa.Value(fn.Params[1])] {
+				continue
+			}
+			// starts at 0
+			from0 := false
+			if ph, ok := bo.X.(*ssa.Phi); ok {
+				for _, e := range ph.Edges {
+					if v, ok := constInt(e); ok && v == 0 {
+						from0 = true
+					}
+				}
+			}
+			r.Check("CMP-1", name+"|whole array", c.Pos(iff.Cond.Pos()), k == a0.Len() && from0, fmt.Sprintf("the comparison walks all %d elements", a0.Len()),
+				fmt.Sprintf("the comparison loop covers elements 0..%d of a %d-element array: differences in the remaining elements go unnoticed, so a consistency check built on it accepts altered messages", k-1, a0.Len()))
+		}
+	}
+}
+
+func returnsBoolSig(sig *types.Signature) bool {
+	b, ok := sig.Results().At(0).Type().Underlying().(*types.Basic)
+	return ok && b.Kind() == types.Bool
 }
